@@ -367,6 +367,56 @@ let shape_main verbose =
           | "EE" -> (match old with Some o -> Printf.printf "EE occ %s\n" (pe (k, o)) | None -> print_endline "EE vac")
           | _ -> (match old with Some o -> Printf.printf "EG occ %s\n" (pv o) | None -> print_endline "EG vac"));
          emit ()
+       | "T" | "U" ->
+         let (lo, hi, mi, ri) = if toks.(0) = "T" then (Unbounded, Unbounded, 1, 2) else (bound_of !kt toks.(1), bound_of !kt toks.(2), 3, 4) in
+         let p = pred_mod (n_of_dec toks.(mi)) (n_of_dec toks.(ri)) in
+         let before = abs_of !w in
+         (* = ShapeScan.s_retain_in, with the store's flush / splice wrapped to count the paths taken *)
+         let rec nat_of_int i = if i <= 0 then O else S (nat_of_int (i - 1)) in
+         let height = (let (_, _, h) = dims () in h) in
+         let hs = if height >= 2 then ":height>=2" else if height = 1 then ":height=1" else ":root-leaf" in
+         let flush allow st j idx = mark ("retain:flush(delete_leaf_entries)" ^ hs);
+           s_flush key_size val_size !fk !fv !ps !sep allow st j idx in
+         let splice st j n es removed =
+           mark ("retain:splice(replace_leaf_children):" ^ (match n with S (S _) -> "run-of-several-leaves" | _ -> "run-of-one-leaf") ^ (if es = [] then ":no-entries-left" else "") ^ hs);
+           s_splice key_size val_size !fk !fv !ps !sep st j n es removed in
+         let w' = scan_retain_in key_cmp sb_leaves (s_seek key_cmp) flush splice s_has_parent s_more_children
+                    (s_underfilling key_size val_size !fk !fv !ps) (s_packs key_size val_size !fk !fv !ps)
+                    (nat_of_int (List.length before + 1)) (nat_of_int 4) !w lo hi p in
+         if compare w' (s_retain_in key_cmp key_size val_size !fk !fv !ps !sep !w lo hi p) <> 0 then print_endline "GLUE! retain_in";
+         w := w';
+         (* cross check with the specification (RetainP.v proves it for the logical tree) *)
+         if compare (abs_of !w) (retain_in key_cmp lo hi p before) <> 0 then print_endline "SPEC! retain_in";
+         mark ("retain:" ^ (if List.length before = List.length (abs_of !w) then "nothing-removed" else "removed"));
+         print_endline (if toks.(0) = "T" then "T ok" else "U ok"); emit ()
+       | "X" ->
+         let p = pred_mod (n_of_dec toks.(3)) (n_of_dec toks.(4)) in
+         let before = abs_of !w in
+         let lo = bound_of !kt toks.(1) and hi = bound_of !kt toks.(2) in
+         let x = ref (s_extract_new !w lo hi) in
+         let spec = ref (ext_begin key_cmp before lo hi) in
+         let outs = ref [] in
+         let step d =
+           let (e, x') = s_extract_next key_cmp key_size val_size !fk !fv !ps !sep entry_eqb p !x d in
+           x := x';
+           (* cross check with the specification iterator (RangeMutP.v proves it for the logical tree) *)
+           let (e', s') = (match d with DNext -> ext_next p !spec | DPrev -> ext_next_back p !spec) in
+           spec := s';
+           if compare e e' <> 0 then print_endline "SPEC! extract step";
+           e in
+         String.iter (fun c ->
+           match c with
+           | 'f' -> outs := (match step DNext with Some e -> pe e | None -> "~") :: !outs
+           | 'b' -> outs := (match step DPrev with Some e -> pe e | None -> "~") :: !outs
+           | 'd' -> let go = ref true in while !go do (match step DNext with Some e -> outs := pe e :: !outs | None -> go := false) done
+           | 'D' -> let go = ref true in while !go do (match step DPrev with Some e -> outs := pe e :: !outs | None -> go := false) done
+           | _ -> ()) toks.(5);
+         w := s_extract_close key_cmp key_size val_size !fk !fv !ps !sep entry_eqb !x;
+         if compare (abs_of !w) (ext_finish !spec) <> 0 then print_endline "SPEC! extract result";
+         mark ("extract:" ^ (if String.contains toks.(5) 'f' || String.contains toks.(5) 'd' then "front" else "") ^
+               (if String.contains toks.(5) 'b' || String.contains toks.(5) 'D' then "back" else "") ^
+               (if List.length before = List.length (abs_of !w) then ":nothing-removed" else ":removed"));
+         Printf.printf "X %s\n" (plist (List.rev !outs)); emit ()
        | "" -> ()
        | _ -> print_endline "UNMODELLED"; emit ())
     done
